@@ -1324,7 +1324,8 @@ HYPOTHESES = [
 RULE = ("class numbers: every fundamental D with |D| below the tier bound (4*10^4 quick, 10^6 thorough), each also with a thread pool for a "
         "1/23 sample; random fundamental D of 16..34 (quick) / 16..40 (thorough) bits in the four classes D mod 16 in {1 mod 8, 5 mod 8, 8, 12}, "
         "some of 41..44 bits; composite D with known prime factors up to 100 bits (2-rank); full runs with an output directory for 8..128-bit D "
-        "(every relation line checked); the real sieve polynomial by polynomial through a hook (6..128 bits); b_plus on random primes up to 2^32 and "
+        "(every relation line checked), with and without thread pool, and with the double large prime variation forced (40..128 bits); the real "
+        "sieve polynomial by polynomial through a hook (6..128 bits, also with double large primes); b_plus on random primes below 2^30 and "
         "on real factor bases; random CRelationSet histories (0/1/2 large primes, pools of 2..80 large primes, refused and panicking shapes). "
         "non-trivial = the implementation returned a result; distinct by request line")
 MODELLED = [
